@@ -48,6 +48,20 @@ def load_cases():
       cases.append(dict(id=f'seeded-{sid}-{prop}', prop=prop, expect='violation',
                         patch=os.path.join(os.path.dirname(mp), 'patch.diff'),
                         edits=[]))
+  # the independently written behaviour-preserving refactorings kept under
+  # benign/ are silent cases: for the property each was written for and for
+  # every property whose check was not silent when it was first ingested
+  for mp in sorted(glob.glob(os.path.join(VERIF, 'benign', '*', 'meta.json'))):
+    with open(mp) as f:
+      meta = json.load(f)
+    sid = os.path.basename(os.path.dirname(mp))
+    props = {meta.get('property') or sid.split('_')[0]}
+    fns = meta.get('first_not_silent') or {}
+    props |= {k for k in fns if isinstance(k, str) and k[:1] == 'C'}
+    for prop in sorted(p_ for p_ in props if p_):
+      cases.append(dict(id=f'benign-{sid}-{prop}', prop=prop, expect='silent',
+                        patch=os.path.join(os.path.dirname(mp), 'patch.diff'),
+                        edits=[]))
   ids = [c['id'] for c in cases]
   dup = {i for i in ids if ids.count(i) > 1}
   if dup:
